@@ -56,6 +56,11 @@ def gen_cases(ck):
     c = {'info': {'name': 'T', 'piece length': L, 'length': 10 ** 400, 'pieces': bytes(20)}}; corpus.append((c, 'corpus huge length'))
     c = {'info': {'name': 'T', 'piece length': 2 ** 52, 'length': 2 ** 53 + 1, 'pieces': bytes(40)}}; corpus.append((c, 'corpus 2^53 length'))
     c = {'info': {'name': 'T', 'piece length': L, 'length': 2.5, 'pieces': bytes(20)}}; corpus.append((c, 'corpus float length'))
+    c = {'info': {'name': 'T', 'piece length': L * 2 ** 1020, 'length': 2.5, 'pieces': bytes(20)}}; corpus.append((c, 'corpus float length, huge piece length'))
+    c = {'info': {'name': 'T', 'piece length': L, 'files': [{'length': 2.5, 'path': ['a']}, {'length': 2 ** 1024, 'path': ['b']}], 'pieces': bytes(20)}}
+    corpus.append((c, 'corpus float length next to a huge length'))
+    c = {'info': {'name': 'T', 'piece length': L, 'length': 2 ** 1024, 'pieces': bytes(20)}}; corpus.append((c, 'corpus 2^1024 length'))
+    c = {'info': {'name': 'T', 'piece length': 2 ** 1024, 'length': 3 * 2 ** 1024 + 1, 'pieces': bytes(80)}}; corpus.append((c, 'corpus sound beyond float range'))
     c = copy.deepcopy(base); c['info']['files'] = {0: {'length': 10, 'path': ['a']}, 1: {'length': L, 'path': ['b']}}; corpus.append((c, 'corpus files as dict'))
     c = copy.deepcopy(base); c['url-list'] = 'nourl'; corpus.append((c, 'corpus bad url-list'))
     c = copy.deepcopy(base); c['announce'] = 'http://h:99999'; corpus.append((c, 'corpus bad port'))
